@@ -230,7 +230,7 @@ Definition parse_body (pw : str -> ptree) (clause : str) : ptree :=
           let c := trim_start ws_unicode clause in
           if first_is c 33 then PNot (pw (trim ws_unicode (tl c)))
           else let c1 := trim ws_unicode clause in
-               PLeaf (if first_is c1 40 && last_is c1 41 then trim ws_unicode (strip_ends c1) else c1)
+               PLeaf (if first_is c1 40 && last_is c1 41 && balanced (strip_ends c1) 0 then trim ws_unicode (strip_ends c1) else c1)
       end
   end.
 Lemma parse_when_S fu s :
